@@ -78,6 +78,54 @@ pub fn run_event(input: &[u8], cuts: &[usize]) -> Result<Vec<TerminalEvent>, Fai
     Ok(out)
 }
 
+/// The same through `Decoder::decode_into` (one call per read, as `UnixTerminal::poll` uses it)
+pub fn run_event_into(input: &[u8], cuts: &[usize]) -> Result<Vec<TerminalEvent>, Fail> {
+    let mut decoder = TTYEventDecoder::new();
+    run_into(&mut decoder, "event", input, cuts)
+}
+
+pub fn run_command_into(input: &[u8], cuts: &[usize]) -> Result<Vec<TerminalCommand>, Fail> {
+    let mut decoder = TTYCommandDecoder::new();
+    run_into(&mut decoder, "command", input, cuts)
+}
+
+fn run_into<D: Decoder>(decoder: &mut D, what: &str, input: &[u8], cuts: &[usize]) -> Result<Vec<D::Item>, Fail>
+where
+    D::Error: std::fmt::Debug,
+{
+    let mut out = Vec::new();
+    for chunk in chunks(input, cuts) {
+        let mut cur = Cursor::new(chunk);
+        let before = out.len();
+        let n = decoder
+            .decode_into(&mut cur, &mut out)
+            .map_err(|e| Fail::new(format!("{what}:decode-error"), format!("decode_into returned error {e:?}")))?;
+        if n != out.len() - before {
+            return Err(Fail::new(
+                format!("{what}:decode_into-count"),
+                format!("decode_into reported {n} items and pushed {}", out.len() - before),
+            ));
+        }
+        if (cur.position() as usize) != chunk.len() {
+            return Err(Fail::new(
+                format!("{what}:chunk-not-consumed"),
+                format!("decode_into returned with {} of {} bytes unread", chunk.len() - cur.position() as usize, chunk.len()),
+            ));
+        }
+    }
+    let mut rest = Vec::new();
+    let n = decoder
+        .decode_into(Cursor::new(&[][..]), &mut rest)
+        .map_err(|e| Fail::new(format!("{what}:decode-error"), format!("decode_into returned error {e:?}")))?;
+    if n != 0 || !rest.is_empty() {
+        return Err(Fail::new(
+            format!("{what}:some-after-exhaustion"),
+            format!("decode_into on empty input after exhaustion produced {} items", rest.len()),
+        ));
+    }
+    Ok(out)
+}
+
 pub fn run_command(input: &[u8], cuts: &[usize]) -> Result<Vec<TerminalCommand>, Fail> {
     let mut decoder = TTYCommandDecoder::new();
     let mut out = Vec::new();
